@@ -48,6 +48,17 @@ def run(facts, rep, tier):
         # the item template is what is added to the crate module
         adds = [n for n, _ in nodes(em.h["body"], "mcall") if n["name"] == "add_item" and "OutputSpaceMod::Crate" in src(n["args"][0])]
         rep.ob("C19.T1", "item-added:%s" % kind, any(contains_node(a, t.node) or (t.bound_outer and t.bound_outer in src(a["args"][2])) for a in adds), "the item template is passed to add_item(Crate, name, ..)")
+    # every entry of the space is rendered: the loop that calls the item renderer ranges over the unfiltered index
+    outs_ = [h_ for h_ in c.user_fns() if ends(h_["fn"], "TypeEntry::output")]
+    ts_ = [h_ for h_ in c.user_fns() if ends(h_["fn"], "TypeSpace::to_stream")]
+    if outs_ and ts_:
+        cnt_ = Canon(c, ts_[0], 4)
+        calls_ = [n_ for n_, _ in walk(ts_[0]["body"]) if n_.get("k") in ("call", "mcall") and n_.get("fn") == outs_[0]["fn"]]
+        if rep.floor("C19.T1", "call of the item renderer in to_stream", len(calls_), 1):
+            rv = cnt_.r(calls_[0]["recv"]) if calls_[0].get("k") == "mcall" else cnt_.r(calls_[0]["args"][0])
+            okr = re.fullmatch(r"elem<self\.id_to_entry\.values\(\)>", rv) is not None
+            rep.ob("C19.T1", "every-entry-rendered", okr, "to_stream renders every entry of id_to_entry" if okr else
+                   "the item renderer is applied to `%s`, not to every entry of the type space: a type that other generated code refers to (and that the Type API reports) is not defined in the output" % rv[:140], calls_[0].get("sp"))
     # modules and the error type
     osp = [h for h in c.user_fns() if h["fn"].endswith("OutputSpace::into_stream")]
     if rep.floor("C19.T1", "OutputSpace::into_stream", len(osp), 1):
